@@ -137,6 +137,14 @@ def check(prog, rep):
 SQ = "aw_datastore/storages/sqlite.py"
 PW = "aw_datastore/storages/peewee.py"
 VARIANTS = [
+    ("B journal kept in memory", "aw_datastore/storages/sqlite.py", 'self.conn.execute("PRAGMA journal_mode=WAL;")', 'self.conn.execute("PRAGMA journal_mode=MEMORY;")', "CONN"),
+    ("OK journal mode DELETE", "aw_datastore/storages/sqlite.py", 'self.conn.execute("PRAGMA journal_mode=WAL;")', 'self.conn.execute("PRAGMA journal_mode=DELETE;")', "ok"),
+    ("B stale -wal file removed before connecting", "aw_datastore/storages/sqlite.py", "        self.conn = sqlite3.connect(filepath)\n", "        if os.path.exists(filepath + \"-wal\"):\n            os.remove(filepath + \"-wal\")\n        self.conn = sqlite3.connect(filepath)\n", "CONN"),
+    {"name": "B connections shared through a module-level table", "edits": [("aw_datastore/storages/sqlite.py", "def _rows_to_events(", "_conns: dict = {}\n\n\ndef _rows_to_events("), ("aw_datastore/storages/sqlite.py", "        self.conn = sqlite3.connect(filepath)\n", "        if filepath not in _conns:\n            _conns[filepath] = sqlite3.connect(filepath)\n        self.conn = _conns[filepath]\n")], "expect": "CONN"},
+    ("B peewee delete_bucket removes the bucket row first", "aw_datastore/storages/peewee.py", "            EventModel.delete().where(\n                EventModel.bucket == self.bucket_keys[bucket_id]\n            ).execute()\n            BucketModel.delete().where(\n                BucketModel.key == self.bucket_keys[bucket_id]\n            ).execute()\n", "            BucketModel.delete().where(\n                BucketModel.key == self.bucket_keys[bucket_id]\n            ).execute()\n            EventModel.delete().where(\n                EventModel.bucket == self.bucket_keys[bucket_id]\n            ).execute()\n", "PW-ORDER"),
+    ("B lazy flag defaults through `or True`", "aw_datastore/storages/sqlite.py", "        self.enable_lazy_commit = enable_lazy_commit\n", "        self.enable_lazy_commit = enable_lazy_commit or True\n", "COMMIT-C"),
+    ("B autocommit connection", "aw_datastore/storages/sqlite.py", "sqlite3.connect(filepath)", "sqlite3.connect(filepath, isolation_level=None)", "COMMIT-F"),
+
     ("B peewee create_bucket writes the row and then its data in a second statement", PW, "            datastr=json.dumps(data or {}),\n        )\n        self.update_bucket_keys()\n", "            datastr=\"{}\",\n        )\n        self.update_bucket_keys()\n        if data:\n            self.update_bucket(bucket_id, data=data)\n", "PW-ATOMIC"),
     {"name": "B one threshold attribute for both modes: 1 when not lazy, tested with >", "edits": [(SQ, "        self.enable_lazy_commit = enable_lazy_commit\n", "        self.enable_lazy_commit = enable_lazy_commit\n        self.commit_threshold = 50 if enable_lazy_commit else 1\n"), (SQ, "        if self.enable_lazy_commit:\n            self.num_uncommitted_statements += num_statements\n            if self.num_uncommitted_statements > 50:\n                self.commit()\n            if (datetime.now() - self.last_commit) > timedelta(seconds=10):\n                self.commit()\n        else:\n            self.commit()\n", "        self.num_uncommitted_statements += num_statements\n        if self.num_uncommitted_statements > self.commit_threshold:\n            self.commit()\n        elif (datetime.now() - self.last_commit) > timedelta(seconds=10):\n            self.commit()\n")], "expect": "COMMIT-C"},
     {"name": "OK one threshold attribute for both modes: 0 when not lazy", "edits": [(SQ, "        self.enable_lazy_commit = enable_lazy_commit\n", "        self.enable_lazy_commit = enable_lazy_commit\n        self.commit_threshold = 50 if enable_lazy_commit else 0\n"), (SQ, "        if self.enable_lazy_commit:\n            self.num_uncommitted_statements += num_statements\n            if self.num_uncommitted_statements > 50:\n                self.commit()\n            if (datetime.now() - self.last_commit) > timedelta(seconds=10):\n                self.commit()\n        else:\n            self.commit()\n", "        self.num_uncommitted_statements += num_statements\n        if self.num_uncommitted_statements > self.commit_threshold:\n            self.commit()\n        elif (datetime.now() - self.last_commit) > timedelta(seconds=10):\n            self.commit()\n")], "expect": "ok"},
